@@ -134,7 +134,7 @@ def run(c, facts, tier):
     c.ob("C13.leading", inner, "leading options are registered in input order", okf, detf)
     from .. import mir as _mir
 
-    owners = [inner] + [e_["ir"]["fn"] for e_ in S.parses()[:1] if e_["ir"]["t"] == "ref"] + [e_["via"]["fn"] for e_ in S.parses()[:1] if e_.get("via") is not None and e_["via"].get("t") == "ref"]
+    owners = [inner] + list(getattr(S, "inlined", [])) + [e_["ir"]["fn"] for e_ in S.parses()[:1] if e_["ir"]["t"] == "ref"] + [e_["via"]["fn"] for e_ in S.parses()[:1] if e_.get("via") is not None and e_["via"].get("t") == "ref"]
     nacc = _mir.order_rule(c, facts, "C13.leading", owners, "the last occurrence of an option must win, so the options have to be registered in the order written")
     c.ob("C13.leading", inner, "the leading options are an accumulation of the resolved program", nacc >= 1, "%d winnow accumulation(s) found in %s" % (nacc, owners), nontrivial=False)
     # the loop stops by Backtrack on the first non-option, leaving the rest untouched
